@@ -82,6 +82,9 @@ API_PATHS = [
     ("mol.conds", "DataPath(MapOrListValue(list_condition=Index.less_than(n), map_condition=Key.not_equal_to(k)))", [("n", "int"), ("k", "str")], "dm"),
     ("mol.label", "DataPath(MapOrListValue(key=i, index=i, label=lab))", [("i", "int"), ("lab", "str")], "dl"),
     ("three", "DataPath(MapValue(key=Key.not_equal_to(k)), 'c', ListValue(value=Value.greater_than(t)))", [("k", "str"), ("t", "int")], "dm"),
+    ("maparg.literal_nested", "DataPath('l', ListValue(value=Value.equal_to({'b': u2, 'src': {'path': [t]}})))", [("t", "int")], "dm"),
+    ("maparg.kwargs_literal", "DataPath('l', ListValue(value=Value.items_contain(b={'path.first': [t]})))", [("t", "int")], "dm"),
+    ("maparg.datapath_value", "DataPath('l', ListValue(value=Value.items_contain(b=DataPath('l', 0))))", [], "dm"),
     ("from_str", "DataPath.from_str('a/c/1')", [], "dm"),
     ("from_str.float", "DataPath.from_str('1.5/0')", [], "dk"),
     ("combined.deepcopy", "DataPath.from_part_specs('a', MapValue(key=Key.not_equal_to(k), value=Value.greater_than(t)))", [("k", "str"), ("t", "int")], "dm"),
@@ -102,6 +105,8 @@ SPEC_PATHS = [
     ("mol.all", "({'key.not_equal_to': k, 'index.lt': n, 'value': {'value.is_instance': ['list', 'dict', 'int']}, 'label': 'L1'},)", [("k", "str"), ("n", "int")], "ds"),
     ("mol.conds", "({'list_condition': {'index.gt': n}, 'map_condition': {'key.dtype.eq': 'str'}},)", [("n", "int")], "dm"),
     ("patharg", "({'type': 'map_value', 'value': {'value.in': [{'path': ['l', 0]}, t]}},)", [("t", "int")], "dm"),
+    ("maparg.escaped_nested", "('l', {'type': 'list_value', 'value': {'value.items_contain': {'b': {'\\\\path': [t]}}}})", [("t", "int")], "dm"),
+    ("maparg.path_nested", "({'type': 'map_value', 'value': {'value.equal_to': {'b': {'path': ['l', 0]}, 'c': [t, 3]}}},)", [("t", "int")], "dm"),
 ]
 DOCS12 = dict(DOCS)
 DOCS12['ds'] = "[u1, {'a': u2}, [u3]]"
@@ -129,6 +134,30 @@ doc = {DOCS12[docid]}
 {ASSERT.replace('FROMSPEC', "ok = ok and note('a path built from specs is rebuilt equal', rebuilt == path)").replace('PURE', 'is_json_pure')}
 """
         out.append(mk_case(f"c12.spec.{cid}", params, body, pre=[f"BU({L}, {names})"], stubs=["sym_repr"]))
+    # history: the caller edits the specs it was handed; a later serialisation (of this path, or of a path sharing the
+    # part object) must not be affected
+    for cid, expr, edit, docid in [
+        ("key_in", "DataPath('a', MapValue(key=Key.in_([k, 'c'])))", "s1[1]['condition']['key.in_'].append('b')", "dm"),
+        ("value_tree", "DataPath(MapValue(condition=Key.not_equal_to(k) & Value.is_instance(dict)), 'b')", "s1[0]['condition']['and'].pop()", "dm"),
+        ("label", "DataPath('l', ListValue(index=Index.less_than(n), label='L'))", "s1[1]['label'] = 'changed'\ns1[1]['condition']['index.less_than'] = 0", "dm"),
+    ]:
+        params = [("k", "str"), ("n", "int"), ("u1", U), ("u2", "int"), ("u3", "int")]
+        body = f"""
+path = {expr}
+doc = {DOCS12[docid]}
+s1 = path.to_part_specs()
+snap = tx(s1)
+sel = outcome(lambda: path.get_data(doc, return_paths=True))
+{edit}
+s2 = path.to_part_specs()
+ok = same('second serialisation is unaffected by edits to the first', tx(s2), snap)
+shared = path / ListValue()
+s3 = shared.to_part_specs()
+ok = ok and same('a path sharing the part serialises it faithfully', tx(s3[:len(s2)]), snap)
+ok = ok and same('rebuilt from the second serialisation selects the same', outcome(lambda: DataPath.from_part_specs(*s2).get_data(doc, return_paths=True)), sel)
+return ok
+"""
+        out.append(mk_case(f"c12.history.{cid}", params, body, pre=[f"BU({L}, k, n, u1, u2, u3)"], stubs=["sym_repr"]))
     for cid, expr, extra, docid in [
         ("length.first", "DataPath(MapValue(key=Key.not_equal_to(k))).length().first()", [("k", "str")], "dm"),
         ("map_keys", "DataPath('a').map_keys()", [], "dm"),
